@@ -14,6 +14,8 @@ Definition seg_reads (es : list ev) : list Z :=
 Definition seg_cbs (es : list ev) : list nat :=
   flat_map (fun e => match e with ECb i => [i] | ERet true => [0%nat] | _ => [] end) es.
 
+Definition raised (es : list ev) : bool := existsb (fun e => match e with ERaise => true | _ => false end) es.
+
 Definition nat_list_eqb (a b : list nat) : bool :=
   if list_eq_dec Nat.eq_dec a b then true else false.
 
@@ -41,7 +43,7 @@ Definition t_seg_ok (I : Z) (st : ost) (o : op) (es : list ev) : bool * ost :=
       (is_nil es, {| lo := lo st; hi := hi st; reg := reg st ++ [cb_id k]; known := known st |})
   | ORemove i =>
       (is_nil es, {| lo := lo st; hi := hi st; reg := remove_first_id i (reg st); known := known st |})
-  | OUpdate =>
+  | OUpdateRaise _ | OUpdate =>
       if negb (known st) then (true, st) else
       if is_nil (reg st) then (true, {| lo := lo st; hi := hi st; reg := reg st; known := false |}) else
       match seg_reads es with
@@ -49,13 +51,17 @@ Definition t_seg_ok (I : Z) (st : ost) (o : op) (es : list ev) : bool * ost :=
       | r1 :: rs =>
           let cs := seg_cbs es in
           let f := negb (is_nil cs) in
-          let order_ok := if f then nat_list_eqb cs (reg st) else true in
+          let raised := raised es in
+          (* a complete firing runs every registered callback once, in order; a firing cut short by a raising
+             callback has run a prefix of them *)
+          let order_ok := if f then (if raised then nat_list_eqb cs (firstn (length cs) (reg st)) else nat_list_eqb cs (reg st)) else true in
           (* fires only when at least the interval has elapsed *)
           let only_when := if f then existsb (fun r => I <=? r - lo st) (r1 :: rs) else true in
           (* fires when more than the interval has elapsed at the first look *)
           let when_due := if I <? r1 - hi st then f else true in
+          (* the interval restarts only with a complete firing: after a cut-short one it is still due *)
           (order_ok && only_when && when_due,
-           if f then {| lo := zmin_l r1 rs; hi := zmax_l r1 rs; reg := reg st; known := true |}
+           if f && negb raised then {| lo := zmin_l r1 rs; hi := zmax_l r1 rs; reg := reg st; known := true |}
            else st)
       end
   end.
@@ -87,7 +93,7 @@ Fixpoint s_segs_ok (n : nat) (m : nat) (reg : list nat) (ops : list op) (segs : 
       match o with
       | ORegister k => is_nil es && s_segs_ok n m (reg ++ [cb_id k]) ops' segs'
       | ORemove i => is_nil es && s_segs_ok n m (remove_first_id i reg) ops' segs'
-      | OUpdate =>
+      | OUpdate | OUpdateRaise _ =>
           let m' := S m in
           let cs := seg_cbs es in
           let expect := if Nat.eqb (Nat.modulo m' n) 0 then reg else [] in
